@@ -1100,7 +1100,7 @@ def minusIdx : List Nat := [0, 3, 5, 6]
 def handPortedLiterals : List (String × List String × List String) := [
   ("field_BH_cylinder_segment.magnet_cylinder_segment_Hfield", ["8", "4", "4", "4", "6", "4", "8", "112", "113", "115", "122", "123", "124", "125", "132", "133", "134", "135", "211", "212", "213", "214", "215", "221", "222", "223", "224", "225", "231", "232", "233", "234", "235", "4", "6", "4", "6", "4", "6", "4", "6", "4", "6", "4", "6", "4", "6", "5", "6", "5", "6", "4", "5", "6", "4", "5", "6", "8", "4", "6", "7", "8", "4", "6", "7", "4", "6", "7", "8", "4", "6", "7", "4", "6", "7", "8", "4", "6", "7", "8", "4", "6", "7", "4", "6", "7", "4", "6", "7", "4", "6", "7", "8", "5", "6", "7", "8", "4", "5", "6", "7", "5", "6", "7", "4", "5", "6", "7", "4", "5", "6", "7", "8", "4", "7", "5", "6", "1e-07"], ["=="]),
   ("field_BH_cylinder_segment.BHJM_cylinder_segment_internal", ["360"], ["<", "!="]),
-  ("field_BH_cylinder_segment.BHJM_cylinder_segment", ["1.0", "180", "180", "0.0", "1e-14", "1e-14", "1e-14", "1e-14"], [">", ">", "<", "<", "<", "!=", "!=", "<", "<", "==", "==", "==", "=="]),
+  ("field_BH_cylinder_segment.BHJM_cylinder_segment", ["1.0", "180", "180", "0.0"], [">", ">", "<", "<", "<", "!=", "!=", "<", "<", "==", "==", "==", "=="]),
   ("special_el3.el30", ["0.0", "0.0", "8", "10.0", "10.0", "0.0", "0.5", "1.0", "0.1", "0.1", "0.5", "1.0", "0.5", "0.5", "0.0", "1.0", "0.0", "0.0", "1.0", "1.0", "0.0", "0.5", "0.0", "0.0", "1.0", "1.0", "0.0", "1.0", "0.0", "1.0", "2.0", "0.0", "0.0", "0.0", "0.0", "1.0", "1.0", "1.0", "1.0", "0.0", "1.0", "1.0", "1.0", "1.0", "1.0", "1.0", "0.5", "0.0", "0.0", "0.0", "0.0", "1.0", "0.0", "0.0", "0.5", "0.0"], ["==", "==", "<", "<", "<", "<", "==", "==", "==", "==", ">", ">=", "<", "<", "==", "==", "<", ">", "==", "<", "<", ">", "==", "==", "<", "<", "==", "<", ">"]),
   ("special_el3.el3", ["10"], ["<"]),
   ("special_el3.el3_angle", ["8", "10", "10", "10", "10"], ["<=", "<", ">=", ">", "!=", ">", "<", ">", "<"])]
